@@ -304,6 +304,18 @@ theorem C19_stop_while_stepping (lineOf : Ctx → Option Nat) (r : Rt) (inj : Op
       have hx := leaveLoopI_fired (c.frames.length - 1) fuel inj c (begin r.m) hf
       simp [finish, hx]
 
+/-- **once an exit is requested nothing executes any more**: `execute_do` returns at once, whatever the script is
+(the rule behind stop, abort, `exit__` and the time limit; repo fix `9e5bc7d` made `evaluate_expression` obey it instead of
+waiting for a context that can no longer empty) -/
+theorem C19_exit_request_executes_nothing (fuel : Nat) (m : M) (h : m.exitReq = true) :
+    step (fuel + 1) m = (m, .ok) := by
+  rw [step]; simp [h]
+
+/-- `exit__` requests the exit and changes nothing else -/
+theorem C19_exit_operator (m : M) :
+    nularOp n!"exit__" m = some ({ m with exitReq := true }, [], .nil) := by
+  simp [nularOp, pure']
+
 /-- without a controller the injected executor is the plain one -/
 theorem doOneI_none (req : Bool) (c : Ctx) (m : M) : doOneI req none c m = (doOne c m, none, false) := rfl
 
